@@ -312,6 +312,26 @@ pub fn run(ctx: &Ctx) -> Report {
             }
         } else { rep.count("aligned:not-reached"); }
     }
+    // hops inside one compression block: a first file of D + 4096 bytes followed by two small ones, all in the same
+    // block; the first is opened, 7 bytes are read and it is abandoned, then the others are read (the reader has a
+    // live decompressor near the start of the block and is asked for a position D further).  D = half and a quarter
+    // of a block, 64 KiB, and every size-like literal of the tree under test that fits in a block
+    if !CONSTS.scaled {
+        let mut ds: Vec<usize> = vec![CONSTS.block / 2, CONSTS.block / 4, 65536];
+        ds.extend(crate::gens::extra_bounds().iter().copied().filter(|b| *b >= 4096 && *b + 16384 < CONSTS.block));
+        ds.sort(); ds.dedup();
+        for (k, d) in ds.into_iter().enumerate() {
+            let layers = if k % 2 == 0 { L_COMP } else { L_COMP | L_ENC };
+            let mut cfg = Cfg::make(&mut rng, layers);
+            cfg.level = 1;
+            let ops = vec![Op::Add { name: "first".into(), size: (d + 4096) as u64, src: rng.bytes(d + 4096, 1) },
+                Op::Add { name: "second".into(), size: 100, src: rng.bytes(100, 3) }, Op::Add { name: "third".into(), size: 150, src: rng.bytes(150, 3) }, Op::Finalize];
+            let hist = vec![ROp::Get("first".into()), ROp::Read(7), ROp::Drop, ROp::Get("second".into()), ROp::Read(1 << 20 | EXACT), ROp::Drop,
+                ROp::Get("first".into()), ROp::Read(9), ROp::Drop, ROp::Hash("third".into()), ROp::Get("third".into()), ROp::Read(200 | EXACT), ROp::Drop];
+            rep.count("hop-inside-a-block");
+            if !check(&mut rep, &mut model, &cfg, &ops, &hist) && rep.full() { return rep; }
+        }
+    }
     let n = if CONSTS.scaled { ctx.budget(600, 20000) } else { ctx.budget(24, 300) };
     for i in 0..n {
         let cfg = Cfg::make(&mut rng, (i % 4) as u8);
